@@ -175,6 +175,11 @@ Definition KeepsSome (w : world) (f g : N) (r : id) : Prop :=
     exists it, In it (n_content n) /\
       match it with CData _ => True | CElem c => exists h, h <> f /\ Attributed w c h end.
 
+(* ... and the opposite: an element with content all of which is sub-elements attributed to f alone *)
+Definition LosesAll (w : world) (f : N) (n : node) : Prop :=
+  n_content n <> [] /\
+  forall it, In it (n_content n) -> exists c, it = CElem c /\ ~ (exists h, h <> f /\ Attributed w c h).
+
 (* elements of a file: what ArxmlFile::serialize writes / ArxmlFile::elements_dfs yields (when f ∈ the root's set) *)
 Definition file_ids (w : world) (x : model) (f : N) : res (list id) := ser_ids (fuel_of w) w (Some f) (m_root x).
 
